@@ -34,7 +34,7 @@ Qed.
 Definition ex_cfg : config :=
   {| c_spec := {| fbase := [97%N]; fdisc := None; fts := false; fsfx := Some [108%N; 111%N; 103%N] |};
      c_append := false; c_cap := Some 4; c_rot := Some (CSize 3%N, NNumbers, KNever); c_utc := false;
-     c_symlink := false; c_bg := false; c_async := false |}.
+     c_symlink := false; c_bg := false; c_async := false; c_start := None |}.
 Example C08_nonvacuous :
   numcfg ex_cfg (CSize 3%N) /\
   expected_files 3%N None (items false [OWrite [1;2;3;10]; OWrite [4;10]; OTrigger; OPlain [5]])%N
